@@ -402,6 +402,31 @@ func c03run(r *kernel.Run, seed uint64) {
 		}
 	}
 	r.Probe("valid_entries_emitted")
+	// the listing API (GroupMetadataList, chain-key replay at activation) hands events out as well
+	for _, n := range []*vnode{R, H} {
+		ch, err := n.gcs[gid].MetadataStore().ListEvents(ctx, nil, nil, false)
+		if err != nil {
+			r.Violate("list", "listing-failed", "ListEvents failed: %v", err)
+			return
+		}
+		listed := map[string]bool{}
+		for _, c := range c13collectMeta(ch) {
+			listed[c] = true
+		}
+		for _, c := range fcids {
+			if listed[c] {
+				r.Violate("list", "forged-event-listed", "ListEvents on %s hands out a forged entry (%s)", n.name, forged[c])
+				return
+			}
+		}
+		for _, c := range vcids {
+			if !listed[c] {
+				r.Violate("list", "valid-event-not-listed", "ListEvents on %s does not hand out a correctly signed entry (%s)", n.name, valid[c])
+				return
+			}
+		}
+	}
+	r.Probe("listing_checked")
 	// H and R hold the same entries and must agree (forged entries are ignored by both)
 	if dh, dr := metaDigest(H.gcs[gid].MetadataStore()), metaDigest(R.gcs[gid].MetadataStore()); dh != dr && sameStrings(logCIDs(H.gcs[gid], true), logCIDs(R.gcs[gid], true)) {
 		r.Violate("state", "same-entries-different-state", "H and R differ:\n  H: %s\n  R: %s", dh, dr)
